@@ -10,7 +10,7 @@ def part(rng, fail=False, small=False):
 
 def scenario(rng, sid, focus, big=False):
     mx = 8 if big else 4
-    sc = dict(id=sid, loaders=[], procs=[], runners=[], closers=[], comps=0, initFail=0, seed=rng.randint(0, 2 ** 31), closeOrder=[], cycle=False)
+    sc = dict(id=sid, loaders=[], procs=[], runners=[], closers=[], comps=0, initFail=0, seed=rng.randint(0, 2 ** 31), closeOrder=[], cycle=False, hold=0)
     if focus in ("C12", "mix"):
         sc["procs"] = [part(rng) for _ in range(rng.randint(0, mx))]
         sc["loaders"] = [part(rng) for _ in range(rng.randint(0, mx))]
